@@ -8,8 +8,11 @@
 (* Modes (constant Mode):                                                  *)
 (*   "family"  Init enumerates a WHOLE instance family: every assignment   *)
 (*             of (column shape, bound pair) to NRxns reactions over NMets *)
-(*             metabolites x objective palette x direction; each instance  *)
-(*             gets the fixed call script of the property (Script).        *)
+(*             metabolites x objective palette x direction (Topo = "all"), *)
+(*             or every bound assignment of a fixed topology with internal *)
+(*             cycles (Topo = "cyc2" | "cyc3"); each instance gets the     *)
+(*             fixed call script of the property (Script), chosen inside   *)
+(*             InScope / Decidable.                                        *)
 (*   "walk"    NWalks pseudo-random larger instances (LCG seeded by Seed), *)
 (*             each followed by Depth pseudo-random steps: public calls    *)
 (*             of the property's vocabulary and model edits (bounds,       *)
@@ -43,6 +46,7 @@ BPairs ==
     [] BPal = "z5" -> <<<<0, 2>>, <<-2, 2>>, <<0, 0>>, <<-2, 0>>, <<-1, 1>>>>                           \* contain 0
     [] BPal = "z3" -> <<<<0, 2>>, <<-2, 2>>, <<-1, 0>>>>
     [] BPal = "f3" -> <<<<0, 2>>, <<-2, 2>>, <<1, 2>>>>
+    [] BPal = "q4" -> <<<<0, 2>>, <<-2, 2>>, <<1, 2>>, <<0, Inf>>>>
     [] BPal = "i9" -> <<<<0, 2>>, <<-2, 2>>, <<0, 0>>, <<1, 2>>, <<-2, -1>>, <<0, Inf>>, <<NegInf, Inf>>, <<1, 1>>, <<NegInf, 1>>>>
 \* column shapes: <<a, b>> consumes metabolite a and produces metabolite b (0 = nothing: boundary)
 Shapes(nm) == SelectSeq([i \in 1..((nm + 1) * (nm + 1)) |-> <<(i - 1) \div (nm + 1), (i - 1) % (nm + 1)>>],
@@ -168,7 +172,7 @@ DrawStep(r, m) ==
          [] Prop = "C05" ->
               LET ho == HasOpt(m) o == IF ho THEN Opt(m) ELSE 0
                   half == ho /\ SignOK(m, o) /\ o # 0 /\ FracIsBound(m, 1, 2, o)
-                  zero == ho /\ SignOK(m, o)
+                  zero == ho /\ SignOK(m, o) /\ FracIsBound(m, 0, 1, o)
                   fr == Pick(<<1, 1, 0, 2>>, d[8])
                   ll == AllFinite(m) /\ d[9] % 4 = 0
                   pf == IF AllFinite(m) /\ ~ll /\ d[9] % 4 = 1 THEN Pick(<<10, 15, 1000>>, d[10]) ELSE 0
